@@ -75,6 +75,11 @@ class C05(Property):
         ("antismash/common/secmet/features/cdscollection.py", "CoredCollectionMixin.core_start"),
         ("antismash/common/secmet/features/protocluster.py", "Protocluster.__init__"),
         ("antismash/common/secmet/features/protocluster.py", "Protocluster.definition_cdses"),
+        ("antismash/common/secmet/features/protocluster.py", "Protocluster.add_cds"),
+        ("antismash/common/secmet/features/protocluster.py", "SideloadedProtocluster.__init__"),
+        ("antismash/common/secmet/features/protocluster.py", "SideloadedProtocluster.definition_cdses"),
+        ("antismash/common/secmet/features/cdscollection.py", "CDSCollection.add_cds"),
+        ("antismash/common/secmet/record.py", "Record.add_protocluster"),
         ("antismash/common/secmet/features/feature.py", "Feature.start"),
         ("antismash/common/secmet/features/feature.py", "Feature.end"),
         ("antismash/common/secmet/features/feature.py", "Feature.overlaps_with"),
@@ -98,7 +103,9 @@ class C05(Property):
             "coordinates, gene-sharing chains, origin-spanning cores / neighbourhoods / whole-record extents; directed "
             "families for every repaired defect (chains needing several merge passes, single-single-candidate chains, "
             "long candidates sorting far from what they reach, equal-coordinate groups of one kind, origin-spanning "
-            "hybrids); exhaustive small scope in the thorough/deep tier (record length 12, cores on a 2-grid, "
+            "hybrids); a `record` family on real records: CDS features with CORE gene functions of one or two products, rule-"
+            "detected protoclusters over them, sideloaded protoclusters (also with the product of a detected one) around their "
+            "core genes; exhaustive small scope in the thorough/deep tier (record length 12, cores on a 2-grid, "
             "neighbourhoods {0,2,6}, genes subsets of {x,y}: every multiset of <= 3 protoclusters, sampled 4); every case "
             "is re-run with the protoclusters supplied in every order (<= 4) or in seeded shuffles and must give the identical ordered result; non-trivial = at least "
             "one candidate of a kind other than single; distinct by canonical input")
@@ -108,7 +115,10 @@ class C05(Property):
                "`sorted()` with CDSCollection.__lt__ is modelled as CPython's list.sort for fewer than 64 elements (count_run + "
                "binary insertion, proved to be a permutation); longer lists are outside the modelled domain",
                "all protocluster locations are forward-strand areas (one part, or two parts meeting at the origin)",
-               "definition CDSs are represented by gene numbers (the code only intersects the sets)",
+               "definition CDSs: the `record` family builds real Protocluster / SideloadedProtocluster objects on a real record with "
+               "real CDS features and CORE gene functions (Record.add_protocluster -> add_cds fills the sets) and compares the "
+               "`definition_cdses` property of every protocluster with the model's `mkProto`; the other families set the stored "
+               "set of rule-detected protoclusters directly (gene numbers)",
                "`CDSCollection.parent` setter (the containment assert it runs is modelled in mkCand / buildOne, the setter itself "
                "is not in SHAPE because the guard cannot address the second `def parent`)"]
 
@@ -324,6 +334,62 @@ class C05(Property):
         rng.shuffle(ps)
         return {"wrap": length if circular else 0, "len": length, "ps": name_products(ps[:len(NAMES)], rng)}
 
+    def record_case(self, rng: random.Random) -> Dict[str, Any]:
+        """protoclusters on a real record: CDS features with CORE gene functions decide the defining genes through
+           `add_cds`; rule-detected and sideloaded protoclusters, the latter also with the product of a detected one"""
+        length = rng.choice([100, 200, 1000])
+        u = length // 100
+        circular = rng.random() < 0.3
+        products = ["nrps", "t1pks", "terpene", "ripp"]
+        genes: List[Dict[str, Any]] = []
+        ps: List[Dict[str, Any]] = []
+        used_keys = set()
+
+        def add_gene(a: int, b: int, prods: List[str]) -> None:
+            a = max(0, min(a, 98))
+            b = max(a + 1, min(b, 100))
+            for g in genes:     # one CDS per location
+                if g["loc"] == simple(a * u, b * u):
+                    g["products"] = sorted(set(g["products"] + prods))
+                    return
+            genes.append({"loc": simple(a * u, b * u), "products": sorted(set(prods))})
+
+        def add_proto(a: int, b: int, nb: int, product: str, sideloaded: bool) -> None:
+            a = max(0, min(a, 98))
+            b = max(a + 1, min(b, 100))
+            key = (product, a, b)
+            if key in used_keys:
+                return
+            used_keys.add(key)
+            ps.append({"core": simple(a * u, b * u), "loc": area((a - nb) * u, (b + nb) * u, length, circular),
+                       "product": product, "sideloaded": sideloaded})
+        k = rng.choice([1, 2, 2, 3])
+        pos = sorted(rng.sample(range(8, 88, 4), k))
+        for a in pos:
+            product = rng.choice(products)
+            w = rng.choice([4, 8, 14])
+            add_proto(a, a + w, rng.choice([0, 2, 6]), product, False)
+            # its CORE genes, sometimes also carrying another product (a shared defining gene)
+            other = rng.choice(products)
+            add_gene(a, a + 2, [product] + ([other] if rng.random() < 0.5 else []))
+            if rng.random() < 0.6:
+                add_gene(a + w - 2, a + w, [product])
+            if rng.random() < 0.6:      # a second rule over (part of) the same genes
+                add_proto(a + rng.choice([0, 0, 1]), a + w - rng.choice([0, 1, 3]), rng.choice([0, 2, 6]), other, False)
+            if rng.random() < 0.7:      # a sideloaded annotation around one of the core genes
+                sp = rng.choice([product, product, other, "external"])
+                add_proto(a - rng.choice([0, 1, 2]), a + rng.choice([2, 3, w + 1]), rng.choice([0, 2, 5]), sp, True)
+        if rng.random() < 0.3:
+            g = rng.randrange(5, 90)
+            add_gene(g, g + 2, [rng.choice(products)])
+        if rng.random() < 0.3:
+            a = rng.randrange(5, 90)
+            add_proto(a, a + 3, rng.choice([0, 3]), rng.choice(products + ["external"]), rng.random() < 0.5)
+        order = list(range(len(ps)))
+        rng.shuffle(order)
+        return {"wrap": length if circular else 0, "len": length, "genes": genes, "ps": [ps[i] for i in order],
+                "record": True}
+
     def small_protos(self, circular: bool) -> List[Dict[str, Any]]:
         length = 12
         out = []
@@ -366,7 +432,7 @@ class C05(Property):
 
     def cases(self, rng: random.Random, tier: str, deep: bool) -> Iterator[Dict[str, Any]]:
         n_random = 8000 if deep else 1900
-        n_directed = 6000 if deep else 1200
+        n_directed = 6000 if deep else 1000
 
         def with_perms(case: Dict[str, Any], small: bool = False) -> Dict[str, Any]:
             n = len(case["ps"])
@@ -377,6 +443,8 @@ class C05(Property):
             else:
                 case["perms"] = "all" if n <= 3 else 6
             return case
+        for _ in range(2500 if deep else 400):
+            yield with_perms(self.record_case(rng))
         for _ in range(n_directed):
             yield with_perms(self.directed_case(rng))
         for _ in range(n_random):
@@ -392,14 +460,45 @@ class C05(Property):
             self._cds[g] = common.dummy_cds(simple(0, 3), f"gene{g}")
         return self._cds[g]
 
-    def build(self, case: Dict[str, Any]) -> List[Any]:
+    def build(self, case: Dict[str, Any], order: Optional[List[int]] = None) -> List[Any]:
         from antismash.common.secmet.features import Protocluster
+        if "genes" in case:
+            return self.build_on_record(case, order if order is not None else list(range(len(case["ps"]))))
         out = []
         for i, p in enumerate(case["ps"]):
             pc = Protocluster(common.make_location(p["core"]), common.make_location(p["loc"]), "tool",
                               p.get("product", f"p{i}"), 10, 10, "rule")
             pc._definition_cdses = {self.gene(g) for g in p["defs"]}  # pylint: disable=protected-access
             out.append(pc)
+        return out
+
+    def build_on_record(self, case: Dict[str, Any], order: List[int]) -> List[Any]:
+        """real Protocluster / SideloadedProtocluster objects on a real record with real CDS features carrying
+           CORE gene functions; `Record.add_protocluster` -> `add_cds` fills the definition sets"""
+        from antismash.common.secmet.features import Protocluster
+        from antismash.common.secmet.features.protocluster import SideloadedProtocluster
+        from antismash.common.secmet.qualifiers.gene_functions import GeneFunction
+        from antismash.common.secmet.test.helpers import DummyCDS, DummyRecord
+        rec = DummyRecord(seq="A" * case["len"], circular=bool(case["wrap"]))
+        self._genes_by_id = {}
+        for gi, g in enumerate(case["genes"]):
+            cds = DummyCDS(location=common.make_location(g["loc"]), locus_tag=f"gene{gi}")
+            for product in g["products"]:
+                cds.gene_functions.add(GeneFunction.CORE, "rule-based-clusters", "dummy", product)
+            rec.add_cds_feature(cds)
+            self._genes_by_id[id(cds)] = gi
+        out = []
+        for i, p in enumerate(case["ps"]):
+            core, loc = common.make_location(p["core"]), common.make_location(p["loc"])
+            product = p.get("product", f"p{i}")
+            if p.get("sideloaded"):
+                pc = SideloadedProtocluster(core, loc, "annotations", product, neighbourhood_range=1)
+            else:
+                pc = Protocluster(core, loc, "rule-based-clusters", product, 10, 10, "rule")
+            out.append(pc)
+        for i in order:
+            rec.add_protocluster(out[i])
+        self._last_record = rec
         return out
 
     @staticmethod
@@ -413,14 +512,17 @@ class C05(Property):
 
     def run_once(self, case: Dict[str, Any], order: List[int], via_record: bool = False) -> Any:
         from antismash.common.secmet.features.candidate_cluster.formation import create_candidates_from_protoclusters
-        pcs = self.build(case)
+        pcs = self.build(case, order)
         index = {id(p): i for i, p in enumerate(pcs)}
         wrap = case["wrap"] or None
         if via_record:
             from antismash.common.secmet.test.helpers import DummyRecord
-            rec = DummyRecord(seq="A" * case["len"], circular=bool(case["wrap"]))
-            for i in order:
-                rec.add_protocluster(pcs[i])
+            if "genes" in case:
+                rec = self._last_record
+            else:
+                rec = DummyRecord(seq="A" * case["len"], circular=bool(case["wrap"]))
+                for i in order:
+                    rec.add_protocluster(pcs[i])
             rec.create_candidate_clusters()
             return self.canon(list(rec.get_candidate_clusters()), index)
         return self.canon(create_candidates_from_protoclusters([pcs[i] for i in order], circular_wrap_point=wrap), index)
@@ -443,6 +545,10 @@ class C05(Property):
         except Exception as exc:  # pylint: disable=broad-except
             return {"err": err_kind(exc), "msg": str(exc)[:200]}
         obs: Dict[str, Any] = {"cands": base, "perm_ok": True}
+        if "genes" in case:
+            # what the `definition_cdses` property of every protocluster returns (gene numbers)
+            pcs = self.build(case)
+            obs["defs"] = [sorted(self._genes_by_id[id(c)] for c in pc.definition_cdses) for pc in pcs]
         for order in self.orders(case):
             try:
                 other = self.run_once(case, order)
@@ -465,6 +571,8 @@ class C05(Property):
 
     def driver_line(self, case: Dict[str, Any], obs: Dict[str, Any]) -> Optional[Dict[str, Any]]:
         line: Dict[str, Any] = {"wrap": case["wrap"], "ps": case["ps"]}
+        if "genes" in case:
+            line["genes"] = case["genes"]
         if "cands" in obs:
             line["impl"] = [{"kind": k, "members": m, "loc": l} for k, m, l in obs["cands"]]
         return line
@@ -492,6 +600,14 @@ class C05(Property):
             corr = [[c["kind"], c["members"], c["loc"]] for c in model["ok"]] == impl
         else:
             corr = False
+        defs_ok = True
+        if "defs" in obs:
+            # `definition_cdses` of the real objects (filled by add_cds, empty for sideloaded) = the model's `mkProto`
+            defs_ok = obs["defs"] == [sorted(d) for d in drv.get("defs", [])]
+            corr = corr and defs_ok
+            tags.append("real-record")
+            if any(p.get("sideloaded") for p in case["ps"]):
+                tags.append("sideloaded")
         detail = "" if corr else f"model {model} vs implementation {impl}"
         spec_ok = True
         if scope:
@@ -509,6 +625,8 @@ class C05(Property):
             if not obs.get("perm_ok", True):
                 problems.append(f"order dependence (candidate order / member order included): supplied as {obs['perm']} "
                                 f"gives {obs['perm_out']}")
+            if not defs_ok:
+                problems.append(f"definition_cdses differ from the documented sets: {obs['defs']} vs {drv.get('defs')}")
             if obs.get("record_ok") is False:
                 problems.append(f"Record.create_candidate_clusters differs: {obs['record_out']}")
             if problems:
@@ -529,10 +647,12 @@ class C05(Property):
 
     def shrink(self, case: Dict[str, Any]) -> Iterator[Dict[str, Any]]:
         ps = case["ps"]
+        for i in range(len(case.get("genes", []))):
+            yield dict(case, genes=case["genes"][:i] + case["genes"][i + 1:])
         for i in range(len(ps)):
             yield dict(case, ps=ps[:i] + ps[i + 1:])
         for i, p in enumerate(ps):
-            for g in p["defs"]:
+            for g in p.get("defs", []):
                 q = dict(p, defs=[x for x in p["defs"] if x != g])
                 yield dict(case, ps=ps[:i] + [q] + ps[i + 1:])
         for i, p in enumerate(ps):
